@@ -254,12 +254,21 @@ fn blob_default<const S: usize, A: Copy>() -> Blob<S, A> {
     unsafe { std::mem::zeroed() }
 }
 
-pub fn dz_cell<const M: usize, A: Copy + Default + 'static>() -> Cell1
+/// A zero-sized `Collect` type with drop glue (but no `Drop` impl of its own, as `no_drop` demands).
+#[derive(Collect)]
+#[collect(no_drop, bound = "")]
+pub struct DZHolder<A: Copy + 'static> {
+    inner: gc_arena::Static<DZ<A>>,
+}
+
+/// `VIA`: 0 = `alloc_static(DZ)`, 1 = `alloc(Static(DZ))`, 2 = `alloc(derived struct holding Static<DZ>)`.
+pub fn dz_cell<const M: usize, A: Copy + Default + 'static, const VIA: u8>() -> Cell1
 where
     Alignment<M>: ValidAlignment,
 {
     let ta = std::mem::align_of::<DZ<A>>();
-    let name = format!("ZstCache<{M}> x zero-sized type with destructor, align {ta}");
+    let via = ["alloc_static", "alloc(Static<_>)", "alloc(derived holder)"][VIA as usize];
+    let name = format!("ZstCache<{M}> x zero-sized type with destructor, align {ta}, via {via}");
     let mut errs = Vec::new();
     let expect = ta <= M;
     obs::begin_case();
@@ -269,8 +278,25 @@ where
         let mut arena: Arena<Rootable![ZRoot<'_>]> = Arena::new(|_| ZRoot { p: Lock::new(None) });
         arena.mutate_root(|mc, root| {
             let cache = ZstCache::<M>::new(mc);
-            let p = cache.alloc_static(mc, DZ::<A>([]));
-            cached = cache.is_cached(p);
+            let p: Gc<'_, ()> = match VIA {
+                0 => {
+                    let p = cache.alloc_static(mc, DZ::<A>([]));
+                    cached = cache.is_cached(p);
+                    Gc::erase(p)
+                }
+                1 => {
+                    assert!(std::mem::size_of::<gc_arena::Static<DZ<A>>>() == 0 && std::mem::align_of::<gc_arena::Static<DZ<A>>>() == ta);
+                    let p = cache.alloc(mc, gc_arena::Static(DZ::<A>([])));
+                    cached = cache.is_cached(p);
+                    Gc::erase(p)
+                }
+                _ => {
+                    assert!(std::mem::size_of::<DZHolder<A>>() == 0 && std::mem::align_of::<DZHolder<A>>() == ta);
+                    let p = cache.alloc(mc, DZHolder::<A> { inner: gc_arena::Static(DZ::<A>([])) });
+                    cached = cache.is_cached(p);
+                    Gc::erase(p)
+                }
+            };
             // the shared pointer may only be handed out if the alignment fits; whether a type with a
             // destructor is served from the cache at all is the library's choice, but the value that was
             // handed over must stay alive as long as the pointer does
@@ -279,9 +305,9 @@ where
             }
             let now = DZ_DROPS.with(|c| c.get());
             if now != 0 {
-                errs.push(format!("{name}: {now} destructor runs right after alloc_static (cached = {cached}), while the returned pointer is alive"));
+                errs.push(format!("{name}: {now} destructor runs right after the allocation call (cached = {cached}), while the returned pointer is alive"));
             }
-            root.p = Lock::new(Some(Gc::erase(p)));
+            root.p = Lock::new(Some(p));
         });
         arena.finish_cycle();
         arena.finish_cycle();
